@@ -283,22 +283,22 @@ func stateInAnnotationObjectKey(s *Scanner, c byte) state {
 	case c == s.boundary:
 		s.step = stateEndValue
 
-	case bytes.IsSpace(c):
+	case bytes.IsBlank(c) || s.isCommentStart(c):
+		// The name ends here. What stands between it and the colon is not a part of it.
+		s.found(lexeme.ObjectKeyEnd)
 		s.step = stateInAnnotationObjectKeyAfter
+		return s.step(s, c)
 
-	case c < 0x20 || (c == '"' || bytes.IsNewLine(c)):
+	case c < 0x20 || c == '"':
 		panic(s.newDocumentError(errors.ErrInvalidCharacterInAnnotationObjectKey, c))
 	}
 	return scanContinue
 }
 
 func stateInAnnotationObjectKeyAfter(s *Scanner, c byte) state {
-	switch {
-	case s.boundary == 0 && c == ':':
-		return stateEndValue(s, c)
-
-	case bytes.IsSpace(c):
-		return scanContinue
+	if c == ':' || bytes.IsBlank(c) || s.isCommentStart(c) {
+		// Like after a quoted name: blanks, line breaks (multi-line annotation), user comments.
+		return stateAfterObjectKey(s, c)
 	}
 	panic(s.newDocumentError(errors.ErrInvalidCharacterInAnnotationObjectKey, c))
 }
